@@ -11,6 +11,7 @@ mod c13;
 mod c15;
 mod c17;
 mod c19;
+mod c20;
 mod util;
 
 use util::*;
@@ -40,6 +41,7 @@ fn main() {
         "C15" => c15::replay(&cases, &mut rep),
         "C17" => c17::replay(&cases, &mut rep),
         "C19" => c19::replay(&cases, &mut rep),
+        "C20" => c20::replay(&cases, &mut rep),
         p => tool_error(&format!("no replay driver for {p}")),
       }
       rep.write(&args[4]);
